@@ -68,6 +68,9 @@ macro_rules! hitem {
 
 pub mod stubs;
 pub mod common;
+pub mod refpeg;
+pub mod rel;
+pub mod c03;
 pub mod c06;
 pub mod c06t;
 pub mod c08;
@@ -77,6 +80,7 @@ pub mod c19;
 
 pub fn registry() -> Vec<(&'static str, &'static str, fn())> {
     let mut v = Vec::new();
+    c03::register(&mut v);
     c06::register(&mut v);
     c06t::register(&mut v);
     c08::register(&mut v);
